@@ -97,7 +97,7 @@ def add_aux(optext, impl_lines):
     for l in impl_lines:
         if l.startswith("case "):
             cur = l.split()[1]
-        elif cur is not None and (l.startswith("aux ") or l.startswith("aux2 ") or l == "aux2"):
+        elif cur is not None and l.startswith("aux"):
             aux.setdefault(cur, []).append(l)
     if not aux:
         return optext
@@ -108,7 +108,8 @@ def add_aux(optext, impl_lines):
         if t and t[0] == "run":
             for a in aux.get(cur, []):
                 out.append(a)
-        elif t and t[0] not in ("off", "data", "extra", "parts", "aux", "aux2") and not t[0].startswith("#"):
+        elif t and t[0] not in ("off", "data", "extra", "parts", "ops", "argv", "cfg") and not t[0].startswith("aux") \
+                and not t[0].startswith("#"):
             cur = t[1] if len(t) > 1 else None
         out.append(l)
     return "\n".join(out)
@@ -131,7 +132,7 @@ def run_both(harness, optext, tag):
             f.write(mtext)
     q = subprocess.run([driver_path(), path], stdout=subprocess.PIPE, stderr=subprocess.PIPE, text=True)
     os.remove(path)
-    impl = [l for l in impl if not (l.startswith("aux ") or l.startswith("aux2"))]
+    impl = [l for l in impl if not l.startswith("aux")]
     return impl, q.stdout.split("\n"), p.returncode, p.stderr, q.returncode, q.stderr
 
 
